@@ -121,7 +121,11 @@ def register_comparator(ex):
     if fields != ['op', 'major', 'minor', 'patch', 'pre'] or not ops or ops[:5] != ['Exact', 'Greater', 'GreaterEq', 'Less', 'LessEq']:
         raise Unsupported(f'semver::Comparator / Op layout changed: {_cmp_layout}')
     ex.L.structs.setdefault('Comparator', fields)
-    ex.L.enums.setdefault('Op', ops)
+    if 'Op' not in ex.L.enums:
+        ex.L.enums['Op'] = ops
+        for v in ops:
+            owners = ex.variant_owner.setdefault(v, [])
+            if 'Op' not in owners: owners.append('Op')
 
 
 def m_comparator_matches(ex, args, callee):
